@@ -464,6 +464,33 @@ def rule_refs(ctx):
                  "endpoint) or handed to the caller on every path from the successful acquisition to the function's exit",
                  floor=60)
     prog = ctx.prog
+    # the consumers keep their contract: a close function gives back the caller's reference on every path (the callers
+    # above are checked on the assumption that it does)
+    for kind, names in RELEASE.items():
+        for name in names:
+            if not name.endswith(("_close", "_close_device")):
+                continue
+            g = next((x for x in prog.functions if x.name == name and not x.cfg_failed and x.params), None)
+            if g is None:
+                continue
+            par = g.params[0]["n"]
+            give = set()
+            for c in g.calls():
+                args = [g.expand(x) for x in c.node["args"] if x is not None]
+                if any(x.get("k") == "var" and x["n"] == par for x in args) and (
+                        c.node.get("fn") in RELEASE[kind] or (c.node.get("fn") or "").endswith(("_rele", "_reap")) or
+                        (lambda h: h is not None and h.file == g.file and h is not g and any(
+                            y.node.get("fn") in RELEASE[kind] or (y.node.get("fn") or "").endswith(("_rele", "_reap")) for y in h.calls()))(
+                                prog.resolve(g, c.node["fn"]) if c.node.get("fn") else None)):
+                    give.add((c.b, c.i))
+            if give and g.dominated_by((g.exit, 0), blocked=lambda b, i, e: (b, i) in give):
+                r.ob(g, "%s gives back the caller's reference on every path" % name)
+            else:
+                path = g.find_path((g.entry, 0), lambda bb, ii: (bb, ii) == (g.exit, 0), blocked=lambda bb, i, e: (bb, i) in give)
+                ctx.fail(r, g, "%s can return without releasing the caller's reference" % name, g.line,
+                         "%s is entered with a reference its caller obtained (find / hold) and must give it back; a path to its "
+                         "exit does not: when two closers meet on one object the count never reaches zero, the object is never "
+                         "reaped and its hold on the socket keeps nng_socket_close waiting forever" % name, g.path_lines(path))
     for f in prog.functions:
         if f.cfg_failed or f.name in REFS or f.file.endswith("_test.c"):
             continue
@@ -1135,6 +1162,53 @@ def rule_admitted_then_closing(ctx):
         raise AnalysisBroken("no admit-then-check site found for the lists closers wait on")
 
 
+# ---------------------------------------------------------------------------
+# R13: a listed object's reference is dropped together with its list membership
+
+
+def rule_release_listed(ctx):
+    from .. import guards as G
+    r = ctx.rule("C10.R13", "T4", "the reference that keeps a transport pipe alive while it waits on an endpoint list is dropped where the pipe "
+                 "leaves that list: a function that walks such a list (NNI_LIST_FOREACH / nni_list_first) and releases the "
+                 "elements' pipes takes them off the list too -- releasing a pipe that stays listed lets the path that later "
+                 "unlinks it release it a second time (the pipe is destroyed inside its own callback and close never returns)",
+                 floor=5)
+    prog = ctx.prog
+    n = 0
+    for f in prog.functions:
+        if f.cfg_failed or "/sp/transport/" not in "/" + f.file:
+            continue
+        for c in f.calls("nni_pipe_rele"):
+            n += 1
+            a = f.expand(c.node["args"][0]) if c.node["args"] else None
+            root = a
+            while root is not None and root.get("k") in ("mem", "cast", "un"):
+                root = root.get("b") if root.get("k") == "mem" else root.get("e")
+            if root is None or root.get("k") != "var" or root.get("vk") != "local":
+                r.ob(f, "nni_pipe_rele line %s" % c.line)
+                continue
+            walked = [d for _, d in G.reaching_defs(f, root["n"], (c.b, c.i)) if d is not None and d.get("k") == "call" and
+                      d.get("fn") in ("nni_list_first", "nni_list_next", "nni_list_last") and d["args"]]
+            if not walked:
+                r.ob(f, "nni_pipe_rele line %s: not an element of a list walk" % c.line)
+                continue
+            lists = {last_field(f.expand(d["args"][0])) for d in walked}
+            unlinked = any((lambda args: any(x is not None and x.get("k") == "var" and x["n"] == root["n"] for x in args) or
+                            any(x is not None and x.get("k") == "un" and x.get("op") == "&" and x["e"].get("k") == "mem" and
+                                (lambda bb: bb is not None and bb.get("k") == "var" and bb["n"] == root["n"])(f.expand(x["e"].get("b"))) for x in args))(
+                                    [f.expand(z) if z is not None else None for z in u.node["args"]])
+                           for u in f.calls(("nni_list_remove", "nni_list_node_remove")))
+            if unlinked:
+                r.ob(f, "nni_pipe_rele line %s: %s is unlinked in the same function" % (c.line, root["n"]))
+            else:
+                ctx.fail(r, f, "pipe of a listed element released without unlinking it", c.line,
+                         "%s walks %s and calls nni_pipe_rele(%s) at line %s while %s stays on the list: whoever unlinks it "
+                         "later (the negotiation callback's error path, the match function) releases the same reference again"
+                         % (f.name, ", ".join(sorted(x for x in lists if x)), show(a), c.line, root["n"]))
+    if n < 5:
+        raise AnalysisBroken("only %d nni_pipe_rele sites in the transports" % n)
+
+
 def rule_closeall(ctx):
     """C10.R5: a close / fini function looks at every parked-operation field it handles on every path"""
     from .. import guards as G
@@ -1186,6 +1260,7 @@ def run(ctx):   # noqa: F811
     ctx.guard(rule_no_park_after_close)
     ctx.guard(rule_find_holds)
     ctx.guard(rule_admitted_then_closing)
+    ctx.guard(rule_release_listed)
     ctx.guard(rule_wakeups)
     from . import c02
     ctx.guard(c02.rule_a7)
